@@ -105,6 +105,33 @@ def nested_kron_spec(rng, cplx=False) -> dict:
             "states": {str(v): n for v, n in states.items()}, "continuous": []}
 
 
+def sibling_sums_spec(rng, cplx=False, signed=False, *, splits=None, vs=None, states=None, kout=None) -> dict:
+    """Two (or three) sibling regions whose sum layers have the same weight shape but different (arity, units)
+    splits — e.g. arity 2 x 3 units next to arity 3 x 2 units — joined by a Hadamard product.  Products of such
+    circuits carry index parameters of equal shape and different index lists side by side."""
+    splits = splits or rng.choice([[(2, 3), (3, 2)], [(2, 2), (4, 1)], [(1, 4), (2, 2), (4, 1)], [(3, 2), (2, 3), (1, 6)]])
+    kout = kout or rng.choice([1, 2])
+    vs = vs or sorted(rng.sample(range(0, 12), len(splits)))
+    states = dict(states or {})
+    layers, tops = [], []
+    for v, (ar, k) in zip(vs, splits):
+        n = states.get(v) or rng.choice([2, 3])
+        states[v] = n
+        ins = []
+        for _ in range(ar):
+            layers.append({"t": "emb", "v": v, "k": k, "n": n,
+                           "w": dict(pspec(rng, [k, n], signed=signed, cplx=cplx), const=False)})
+            ins.append(len(layers) - 1)
+        layers.append({"t": "sum", "in": ins, "kin": k, "kout": kout,
+                       "w": dict(pspec(rng, [kout, ar * k], signed=signed, cplx=cplx), const=False)})
+        tops.append(len(layers) - 1)
+    layers.append({"t": "had", "in": tops, "k": kout})
+    layers.append({"t": "sum", "in": [len(layers) - 1], "kin": kout, "kout": 1,
+                   "w": dict(pspec(rng, [1, kout], signed=signed, cplx=cplx), const=False)})
+    return {"layers": layers, "outputs": [len(layers) - 1], "vars": vs, "splits": [list(x) for x in splits],
+            "states": {str(v): n for v, n in states.items()}, "continuous": []}
+
+
 def build_param(ps: dict) -> P.Parameter:
     inner = tuple(ps["inner"])
     if ps.get("cplx"):
